@@ -13,7 +13,7 @@ from vlib.core import Violation, HarnessError
 
 LEVEL = "exploration"
 RULE = (
-    "case = chain of 1-4 distinct manual steps over {check,get,set,unset,push,pop,boot,shutdown,download,upload,control,"
+    "case = chain of 1-4 manual steps (repetitions allowed) over {check,get,set,unset,push,pop,boot,shutdown,download,upload,control,"
     "create,clean,collect,noop} x vm selection (vms=, per-vm variant restrictions incl. none) x worker set (incl. "
     "workers whose restrictions exclude a selected vm variant) x optional failing step (all its tests FAIL/ERROR) or "
     "raising step (single worker) at any position x extra parameters; run through Manu.run. Non-trivial = >=2 steps "
@@ -21,8 +21,7 @@ RULE = (
 )
 ASSUMPTIONS = e1.ASSUMPTIONS[:3] + [
     "the job is the selftests' stand-in (intertest_setup.new_job seam); worker start is a no-op",
-    "chains do not repeat a step (the chain is read with Params.objects, which drops repetitions) and do not contain "
-    "start/stop/run/list/update/unittest/develop",
+    "chains (a step may occur more than once) do not contain start/stop/run/list/update/unittest/develop",
     "a raising step is only injected with a single worker, because the traversal coroutines of other workers would "
     "otherwise be left pending in the shared event loop",
 ]
@@ -61,16 +60,21 @@ def cases(draw):
         elif choice == "all":
             restrs[vm] = ""
     nets = draw(st.sampled_from(NETS))
-    case = {"chain": chain, "vms": vms, "restrs": restrs, "nets": nets}
     mode = draw(st.sampled_from(["none", "none", "fail", "fail", "raise"]))
     position = draw(st.integers(0, len(chain) - 1))
+    if mode == "raise" and chain[position] != "noop":
+        nets = draw(st.sampled_from(["net1", "net0", "net2"]))     # a raising step only with a single worker
+    case = {"chain": chain, "vms": vms, "restrs": restrs, "nets": nets}
     if mode == "fail" and chain[position] != "noop":
         case["fail"] = {"step": position, "status": draw(st.sampled_from(["FAIL", "ERROR"]))}
     elif mode == "raise" and len(nets.split()) == 1 and chain[position] != "noop":
         case["raise"] = position
+        case["raise_type"] = draw(st.sampled_from(sorted(toolsim.ToolSim.RAISABLE)))
     if draw(st.booleans()):
         case["extra"] = draw(st.sampled_from([{"get_state_images": "customize"}, {"set_state_vms": "mystate"},
-                                              {"unset_state_images": "customize"}, {"files": "a.txt"}]))
+                                              {"unset_state_images": "customize"}, {"files": "a.txt"},
+                                              {"unset_mode": "ri"}, {"unset_mode": "fa"}, {"get_mode": "ia"},
+                                              {"set_mode": "fa"}]))
     return case
 
 
@@ -108,7 +112,7 @@ def run_case(case, scratch):
         fail[f"0m{case['fail']['step']}"] = case["fail"]["status"]
     raise_for = f"0m{case['raise']}" if "raise" in case else None
     tool_sim = toolsim.ToolSim(durations=["0.01T", "0.05T"], outcomes=["PASS"], scratch=scratch, fail=fail,
-                               raise_for=raise_for)
+                               raise_for=raise_for, raise_type=case.get("raise_type", "RuntimeError"))
     config = {"i2n.manu.params": params}
     with toolsim.session(tool_sim):
         try:
@@ -193,6 +197,13 @@ def judge(sim, case):
                 if params.get(key) != value:
                     yield Violation({"oracle": "user-parameter-lost", "key": key},
                                     f"step {step} (position {index}): {key}={params.get(key)!r}, the command line says {value!r}", case)
+                # a general policy given by the user is not overridden by a vm-specific default of the tool
+                for vm in vms.split():
+                    effective = params.get(f"{key}_{vm}", params.get(key))
+                    if key.endswith("_mode") and effective != value:
+                        yield Violation({"oracle": "user-parameter-overridden", "key": key},
+                                        f"step {step} (position {index}): the command line says {key}={value} but for {vm} "
+                                        f"{key}_{vm}={effective!r} takes precedence", case)
         if sorted(got) != sorted(expected):
             extra = sorted(set(got) - set(expected))
             missing = sorted(set(expected) - set(got))
